@@ -545,9 +545,11 @@ pub fn union_strategy(cfg: GenCfg, depth: u32) -> BoxedStrategy<UnionDef> {
                 }
                 cases.push(Case { name: format!("c{i}"), id: i as u32 + 1, labels, default: false, ty });
             }
-            // optionally make the last case the default case
+            // optionally make one case the default case: the last one (the usual way to write a union)
+            // or any other one (IDL allows `default:` anywhere in the switch body)
             if dflt % 3 == 0 {
-                cases[n - 1].default = true;
+                let at = if (dflt / 3) % 2 == 0 { n - 1 } else { (dflt as usize / 6) % n };
+                cases[at].default = true;
             }
             UnionDef { name, ext, disc, cases }
         })
